@@ -3,6 +3,7 @@ package main
 import (
 	"fmt"
 	"go/types"
+	"math/rand"
 	"strconv"
 	"strings"
 
@@ -13,187 +14,473 @@ type intrinsic func(ex *Exec, fn *ssa.Function, args []Value, site string) Value
 
 const rt = "github.com/protobom/protobom/internal/verifrt."
 
-var intrinsics map[string]intrinsic
+var intrinsics = map[string]intrinsic{}
+
+func sliceVals(v Value) []Value {
+	s := v.(Slice)
+	out := make([]Value, s.Len)
+	for i := range out {
+		out[i] = s.Arr[s.Off+i]
+	}
+	return out
+}
+
+func boolTerms(v Value) []*Term {
+	var out []*Term
+	for _, x := range sliceVals(v) {
+		out = append(out, boolTerm(x))
+	}
+	return out
+}
+
+func strTerms(v Value) []*Term {
+	var out []*Term
+	for _, x := range sliceVals(v) {
+		out = append(out, strTerm(x))
+	}
+	return out
+}
+
+var concretePool = []string{"", "a", "b", "c", "a", "b", "pkg:npm/x@1", "x y", "A", "a:b", "a+b"}
+
+func (ex *Exec) concreteMode() bool { return ex.sh.cfg.Concrete }
+
+func (ex *Exec) rng() *rand.Rand { return ex.sh.rngFor(ex) }
 
 func init() {
-	intrinsics = map[string]intrinsic{
-		rt + "NondetString": func(ex *Exec, fn *ssa.Function, args []Value, site string) Value {
-			name := fmt.Sprintf("s%d_%s", ex.nvars, sanitize(args[0].(string)))
-			ex.nvars++
-			ex.varNames = append(ex.varNames, name)
-			return mkVar(name, SStr)
-		},
-		rt + "NondetBool": func(ex *Exec, fn *ssa.Function, args []Value, site string) Value {
-			name := fmt.Sprintf("b%d_%s", ex.nvars, sanitize(args[0].(string)))
-			ex.nvars++
-			ex.varNames = append(ex.varNames, name)
-			return mkVar(name, SBool)
-		},
-		rt + "NondetLen": func(ex *Exec, fn *ssa.Function, args []Value, site string) Value {
-			return int64(ex.chooseFree(int(args[1].(int64)) + 1))
-		},
-		rt + "NondetChoice": func(ex *Exec, fn *ssa.Function, args []Value, site string) Value {
-			return int64(ex.chooseFree(int(args[1].(int64))))
-		},
-		rt + "Assume": func(ex *Exec, fn *ssa.Function, args []Value, site string) Value {
-			t := ex.simp(boolTerm(args[0]))
-			if t == tFalse {
-				panic(pathAbort{"assume false"})
+	reg := func(name string, f intrinsic) { intrinsics[name] = f }
+
+	// ------------------------------------------------------------ symbolic inputs
+	reg(rt+"NondetString", func(ex *Exec, fn *ssa.Function, args []Value, site string) Value {
+		name := args[0].(string)
+		if ex.concreteMode() {
+			s := concretePool[ex.rng().Intn(len(concretePool))]
+			ex.nondets = append(ex.nondets, nondetRec{Name: name, Kind: "string", T: mkStr(s)})
+			return s
+		}
+		return ex.freshVar(name, SStr, "string", true)
+	})
+	nondetInt := func(ex *Exec, fn *ssa.Function, args []Value, site string) Value {
+		name := args[0].(string)
+		lo, hi := args[1].(int64), args[2].(int64)
+		if ex.concreteMode() {
+			v := lo + ex.rng().Int63n(hi-lo+1)
+			if ex.rng().Intn(2) == 0 && hi-lo > 8 {
+				v = lo + ex.rng().Int63n(8)
 			}
-			if t != tTrue && !ex.feasible(t) {
-				panic(pathAbort{"assume infeasible"})
+			ex.nondets = append(ex.nondets, nondetRec{Name: name, Kind: "int", T: mkInt(v)})
+			return v
+		}
+		v := ex.freshVar(name, SInt, "int", true)
+		ex.assume(mkIntCmp("<=", mkInt(lo), v))
+		ex.assume(mkIntCmp("<=", v, mkInt(hi)))
+		return v
+	}
+	reg(rt+"NondetInt", nondetInt)
+	reg(rt+"NondetInt32", nondetInt)
+	reg(rt+"NondetInt64", nondetInt)
+	reg(rt+"NondetBool", func(ex *Exec, fn *ssa.Function, args []Value, site string) Value {
+		name := args[0].(string)
+		if ex.concreteMode() {
+			b := ex.rng().Intn(2) == 0
+			ex.nondets = append(ex.nondets, nondetRec{Name: name, Kind: "bool", T: mkBool(b)})
+			return b
+		}
+		return ex.freshVar(name, SBool, "bool", true)
+	})
+	reg(rt+"NondetLen", func(ex *Exec, fn *ssa.Function, args []Value, site string) Value {
+		n := int(args[1].(int64)) + 1
+		var c int
+		if ex.concreteMode() {
+			c = ex.rng().Intn(n)
+		} else {
+			c = ex.chooseFree(n)
+		}
+		ex.recordChoice(args[0].(string), c)
+		return int64(c)
+	})
+	reg(rt+"NondetChoice", func(ex *Exec, fn *ssa.Function, args []Value, site string) Value {
+		n := int(args[1].(int64))
+		var c int
+		if ex.concreteMode() {
+			c = ex.rng().Intn(n)
+		} else {
+			c = ex.chooseFree(n)
+		}
+		ex.recordChoice(args[0].(string), c)
+		return int64(c)
+	})
+	reg(rt+"Bound", func(ex *Exec, fn *ssa.Function, args []Value, site string) Value {
+		v := args[1].(int64)
+		if ex.sh.cfg.Tier == "thorough" {
+			v = args[2].(int64)
+		}
+		ex.bounds[args[0].(string)] = v
+		return v
+	})
+	reg(rt+"Thorough", func(ex *Exec, fn *ssa.Function, args []Value, site string) Value {
+		return ex.sh.cfg.Tier == "thorough"
+	})
+	reg(rt+"ThoroughOnly", func(ex *Exec, fn *ssa.Function, args []Value, site string) Value {
+		if ex.sh.cfg.Tier != "thorough" {
+			panic(pathAbort{"skipped: thorough only"})
+		}
+		return nil
+	})
+
+	// ------------------------------------------------------------ constraints and assertions
+	reg(rt+"Assume", func(ex *Exec, fn *ssa.Function, args []Value, site string) Value {
+		t := ex.simp(boolTerm(args[0]))
+		if t == tFalse {
+			panic(pathAbort{"assume false"})
+		}
+		if t != tTrue && !ex.feasible(t) {
+			panic(pathAbort{"assume infeasible"})
+		}
+		ex.assume(t)
+		return nil
+	})
+	reg(rt+"Assert", func(ex *Exec, fn *ssa.Function, args []Value, site string) Value {
+		if ex.concreteMode() {
+			ex.observe("assert " + args[1].(string) + " " + fmt.Sprint(lower(boolTerm(args[0]))))
+			return nil
+		}
+		ex.assertTerm(boolTerm(args[0]), args[1].(string))
+		return nil
+	})
+	reg(rt+"Region", func(ex *Exec, fn *ssa.Function, args []Value, site string) Value {
+		ex.regions[args[0].(string)] = boolTerm(args[1])
+		return nil
+	})
+	reg(rt+"Observe", func(ex *Exec, fn *ssa.Function, args []Value, site string) Value {
+		if ex.concreteMode() {
+			ex.observe("obs " + args[0].(string) + " " + fmt.Sprintf("%q", lower(strTerm(args[1]))))
+		}
+		return nil
+	})
+	reg(rt+"Concrete", func(ex *Exec, fn *ssa.Function, args []Value, site string) Value {
+		return ex.concreteMode()
+	})
+
+	// ------------------------------------------------------------ branch-free term builders
+	reg(rt+"And", func(ex *Exec, fn *ssa.Function, args []Value, site string) Value {
+		return lower(mkAnd(boolTerms(args[0])...))
+	})
+	reg(rt+"Or", func(ex *Exec, fn *ssa.Function, args []Value, site string) Value {
+		return lower(mkOr(boolTerms(args[0])...))
+	})
+	reg(rt+"Not", func(ex *Exec, fn *ssa.Function, args []Value, site string) Value {
+		return lower(mkNot(boolTerm(args[0])))
+	})
+	reg(rt+"Implies", func(ex *Exec, fn *ssa.Function, args []Value, site string) Value {
+		return lower(mkImplies(boolTerm(args[0]), boolTerm(args[1])))
+	})
+	reg(rt+"Iff", func(ex *Exec, fn *ssa.Function, args []Value, site string) Value {
+		return lower(mkEq(boolTerm(args[0]), boolTerm(args[1])))
+	})
+	reg(rt+"IteStr", func(ex *Exec, fn *ssa.Function, args []Value, site string) Value {
+		return lower(mkIte(boolTerm(args[0]), strTerm(args[1]), strTerm(args[2])))
+	})
+	reg(rt+"IteInt", func(ex *Exec, fn *ssa.Function, args []Value, site string) Value {
+		return lower(mkIte(boolTerm(args[0]), intTerm(args[1]), intTerm(args[2])))
+	})
+	reg(rt+"StrIn", func(ex *Exec, fn *ssa.Function, args []Value, site string) Value {
+		x := strTerm(args[0])
+		var ds []*Term
+		for _, y := range strTerms(args[1]) {
+			ds = append(ds, mkEq(x, y))
+		}
+		return lower(mkOr(ds...))
+	})
+	reg(rt+"StrsDistinct", func(ex *Exec, fn *ssa.Function, args []Value, site string) Value {
+		xs := strTerms(args[0])
+		var cs []*Term
+		for i := range xs {
+			for j := i + 1; j < len(xs); j++ {
+				cs = append(cs, mkNot(mkEq(xs[i], xs[j])))
 			}
-			ex.assume(t)
-			return nil
-		},
-		rt + "Assert": func(ex *Exec, fn *ssa.Function, args []Value, site string) Value {
-			ex.assertTerm(boolTerm(args[0]), args[1].(string))
-			return nil
-		},
-		rt + "And": func(ex *Exec, fn *ssa.Function, args []Value, site string) Value {
-			return lower(mkAnd(boolTerm(args[0]), boolTerm(args[1])))
-		},
-		rt + "Or": func(ex *Exec, fn *ssa.Function, args []Value, site string) Value {
-			return lower(mkOr(boolTerm(args[0]), boolTerm(args[1])))
-		},
-		rt + "Not": func(ex *Exec, fn *ssa.Function, args []Value, site string) Value {
-			return lower(mkNot(boolTerm(args[0])))
-		},
-		rt + "Implies": func(ex *Exec, fn *ssa.Function, args []Value, site string) Value {
-			return lower(mkOr(mkNot(boolTerm(args[0])), boolTerm(args[1])))
-		},
-		rt + "InStr": func(ex *Exec, fn *ssa.Function, args []Value, site string) Value {
-			x := strTerm(args[0])
-			s := args[1].(Slice)
+		}
+		return lower(mkAnd(cs...))
+	})
+	subset := func(xs, ys []*Term) *Term {
+		var cs []*Term
+		for _, x := range xs {
 			var ds []*Term
-			for i := 0; i < s.Len; i++ {
-				ds = append(ds, mkEq(x, strTerm(s.Arr[s.Off+i])))
+			for _, y := range ys {
+				ds = append(ds, mkEq(x, y))
 			}
-			return lower(mkOr(ds...))
-		},
-		rt + "DistinctStr": func(ex *Exec, fn *ssa.Function, args []Value, site string) Value {
-			s := args[0].(Slice)
-			var cs []*Term
-			for i := 0; i < s.Len; i++ {
-				for j := i + 1; j < s.Len; j++ {
-					cs = append(cs, mkNot(mkEq(strTerm(s.Arr[s.Off+i]), strTerm(s.Arr[s.Off+j]))))
+			cs = append(cs, mkOr(ds...))
+		}
+		return mkAnd(cs...)
+	}
+	reg(rt+"StrSubset", func(ex *Exec, fn *ssa.Function, args []Value, site string) Value {
+		return lower(subset(strTerms(args[0]), strTerms(args[1])))
+	})
+	reg(rt+"StrSetEq", func(ex *Exec, fn *ssa.Function, args []Value, site string) Value {
+		xs, ys := strTerms(args[0]), strTerms(args[1])
+		return lower(mkAnd(subset(xs, ys), subset(ys, xs)))
+	})
+	reg(rt+"StrLt", func(ex *Exec, fn *ssa.Function, args []Value, site string) Value {
+		return lower(mkStrLt(strTerm(args[0]), strTerm(args[1])))
+	})
+	reg(rt+"StrContains", func(ex *Exec, fn *ssa.Function, args []Value, site string) Value {
+		return lower(mkContains(strTerm(args[0]), strTerm(args[1])))
+	})
+	reg(rt+"StrHasPrefix", func(ex *Exec, fn *ssa.Function, args []Value, site string) Value {
+		return lower(mkPrefixOf(strTerm(args[1]), strTerm(args[0])))
+	})
+
+	// ------------------------------------------------------------ engine controls / monitors
+	reg(rt+"MapOrderAll", func(ex *Exec, fn *ssa.Function, args []Value, site string) Value {
+		if args[0].(bool) {
+			ex.mapOrder = mapAll
+		} else {
+			ex.mapOrder = mapInsertion
+		}
+		return nil
+	})
+	reg(rt+"Panics", func(ex *Exec, fn *ssa.Function, args []Value, site string) (res Value) {
+		depth := ex.depth
+		defer func() {
+			if r := recover(); r != nil {
+				if _, ok := r.(goPanic); ok {
+					ex.depth = depth
+					res = true
+					return
+				}
+				panic(r)
+			}
+		}()
+		ex.callValue(args[0], nil, site)
+		return false
+	})
+	reg(rt+"Exits", func(ex *Exec, fn *ssa.Function, args []Value, site string) (res Value) {
+		depth := ex.depth
+		defer func() {
+			if r := recover(); r != nil {
+				if _, ok := r.(exitEvent); ok {
+					ex.depth = depth
+					res = true
+					return
+				}
+				panic(r)
+			}
+		}()
+		ex.callValue(args[0], nil, site)
+		return false
+	})
+	reg(rt+"Freeze", func(ex *Exec, fn *ssa.Function, args []Value, site string) Value {
+		ex.mon.freeze(ex, args[0].(string), sliceVals(args[1]))
+		return nil
+	})
+	reg(rt+"Thaw", func(ex *Exec, fn *ssa.Function, args []Value, site string) Value {
+		ex.mon.thaw()
+		return nil
+	})
+
+	// ------------------------------------------------------------ stdlib stubs
+	reg("slices.Clone", func(ex *Exec, fn *ssa.Function, args []Value, site string) Value {
+		s := args[0].(Slice)
+		if s.Nil {
+			return s
+		}
+		arr := make([]Value, s.Len)
+		for i := range arr {
+			arr[i] = copyVal(s.Arr[s.Off+i])
+		}
+		return Slice{Arr: arr, Len: s.Len, Cap: s.Len, O: ex.newObj(site)}
+	})
+	reg("maps.Clone", func(ex *Exec, fn *ssa.Function, args []Value, site string) Value {
+		m := args[0].(*Map)
+		if m == nil {
+			return m
+		}
+		n := &Map{O: ex.newObj(site)}
+		for _, e := range m.Entries {
+			n.Entries = append(n.Entries, mapEntry{copyVal(e.K), copyVal(e.V)})
+		}
+		return n
+	})
+	reg("sort.Strings", sortStrings)
+	reg("slices.Sort", func(ex *Exec, fn *ssa.Function, args []Value, site string) Value {
+		s := args[0].(Slice)
+		if s.Len > 0 {
+			if _, isInt := s.Arr[s.Off].(int64); isInt {
+				return sortInts(ex, fn, args, site)
+			}
+		}
+		return sortStrings(ex, fn, args, site)
+	})
+	reg("sort.Ints", sortInts)
+	reg("strings.Join", func(ex *Exec, fn *ssa.Function, args []Value, site string) Value {
+		s := args[0].(Slice)
+		sep := strTerm(args[1])
+		var parts []*Term
+		for i := 0; i < s.Len; i++ {
+			if i > 0 {
+				parts = append(parts, sep)
+			}
+			parts = append(parts, strTerm(s.Arr[s.Off+i]))
+		}
+		return lower(mkConcat(parts...))
+	})
+	reg("strconv.Atoi", func(ex *Exec, fn *ssa.Function, args []Value, site string) Value {
+		switch x := args[0].(type) {
+		case string:
+			n, err := strconv.Atoi(x)
+			if err != nil {
+				return Tuple{int64(0), mkErr(site, "atoi")}
+			}
+			return Tuple{int64(n), Iface{}}
+		case *Term:
+			// fork: parse error / a non-negative decimal / anything else integral
+			if x.Op == "str.from_int" {
+				return Tuple{x.Args[0], Iface{}}
+			}
+			if ex.chooseFree(2) == 0 {
+				ex.assume(mkEq(mkStrOp("str.to_int", SInt, x), mkInt(-1)))
+				return Tuple{int64(0), mkErr(site, "atoi")}
+			}
+			v := ex.freshVar("atoi", SInt, "int", false)
+			ex.assume(mkIntCmp(">=", v, mkInt(0)))
+			ex.assume(mkEq(mkStrOp("str.to_int", SInt, x), v))
+			return Tuple{v, Iface{}}
+		}
+		panic("atoi")
+	})
+	reg("strconv.Itoa", func(ex *Exec, fn *ssa.Function, args []Value, site string) Value {
+		return lower(mkFromInt(intTerm(args[0])))
+	})
+	reg("context.Background", func(ex *Exec, fn *ssa.Function, args []Value, site string) Value {
+		return Iface{T: absType, V: &ctxAbs{}}
+	})
+	reg("context.TODO", func(ex *Exec, fn *ssa.Function, args []Value, site string) Value {
+		return Iface{T: absType, V: &ctxAbs{}}
+	})
+	reg("context.WithValue", func(ex *Exec, fn *ssa.Function, args []Value, site string) Value {
+		parent, _ := args[0].(Iface).V.(*ctxAbs)
+		return Iface{T: absType, V: &ctxAbs{parent: parent, key: args[1], val: args[2]}}
+	})
+	reg("errors.New", func(ex *Exec, fn *ssa.Function, args []Value, site string) Value {
+		return mkErr(site, args[0])
+	})
+	reg("fmt.Errorf", func(ex *Exec, fn *ssa.Function, args []Value, site string) Value {
+		e := &errAbs{site: site, msg: args[0]}
+		for _, a := range sliceVals(args[1]) {
+			if ia, ok := a.(Iface); ok {
+				if _, isErr := ia.V.(*errAbs); isErr {
+					w := ia
+					e.wraps = &w
 				}
 			}
-			return lower(mkAnd(cs...))
-		},
-		rt + "MapOrderAll": func(ex *Exec, fn *ssa.Function, args []Value, site string) Value {
-			ex.MapAllOrder = args[0].(bool)
-			return nil
-		},
-		"slices.Clone": func(ex *Exec, fn *ssa.Function, args []Value, site string) Value {
-			s := args[0].(Slice)
-			if s.Nil {
-				return s
+		}
+		return Iface{T: opaqueType, V: e}
+	})
+	reg("errors.Is", func(ex *Exec, fn *ssa.Function, args []Value, site string) Value {
+		e, target := args[0].(Iface), args[1].(Iface)
+		for e.T != nil {
+			if ex.eqTerm(e, target, errorType) == tTrue {
+				return true
 			}
-			arr := make([]Value, s.Len)
-			for i := range arr {
-				arr[i] = copyVal(s.Arr[s.Off+i])
+			ea, ok := e.V.(*errAbs)
+			if !ok || ea.wraps == nil {
+				break
 			}
-			return Slice{Arr: arr, Len: s.Len, Cap: s.Len, O: ex.newObj(site)}
-		},
-		"maps.Clone": func(ex *Exec, fn *ssa.Function, args []Value, site string) Value {
-			m := args[0].(*Map)
-			if m == nil {
-				return m
-			}
-			n := &Map{O: ex.newObj(site)}
-			for _, e := range m.Entries {
-				n.Entries = append(n.Entries, mapEntry{copyVal(e.K), copyVal(e.V)})
-			}
-			return n
-		},
-		"sort.Strings": sortStrings,
-		"slices.Sort":  sortStrings,
-		"strings.Join": func(ex *Exec, fn *ssa.Function, args []Value, site string) Value {
-			s := args[0].(Slice)
-			sep := strTerm(args[1])
-			var parts []*Term
-			for i := 0; i < s.Len; i++ {
-				if i > 0 {
-					parts = append(parts, sep)
-				}
-				parts = append(parts, strTerm(s.Arr[s.Off+i]))
-			}
-			return lower(mkConcat(parts...))
-		},
-		"strconv.Atoi": func(ex *Exec, fn *ssa.Function, args []Value, site string) Value {
-			errT := types.Universe.Lookup("error").Type()
-			switch x := args[0].(type) {
-			case string:
-				n, err := strconv.Atoi(x)
-				if err != nil {
-					return Tuple{int64(0), Iface{T: errT, V: "atoi"}}
-				}
-				return Tuple{int64(n), Iface{}}
-			case *Term:
-				// fork: parse error / fresh integer
-				if ex.chooseFree(2) == 0 {
-					return Tuple{int64(0), Iface{T: errT, V: "atoi"}}
-				}
-				name := fmt.Sprintf("i%d_atoi", ex.nvars)
-				ex.nvars++
-				ex.varNames = append(ex.varNames, name)
-				return Tuple{mkVar(name, SInt), Iface{}}
-			}
-			panic("atoi")
-		},
-		"context.Background": func(ex *Exec, fn *ssa.Function, args []Value, site string) Value {
-			return Iface{T: ctxType, V: &ctxAbs{}}
-		},
-		"context.WithValue": func(ex *Exec, fn *ssa.Function, args []Value, site string) Value {
-			parent := args[0].(Iface).V.(*ctxAbs)
-			return Iface{T: ctxType, V: &ctxAbs{parent: parent, key: args[1], val: args[2]}}
-		},
-		"errors.New": func(ex *Exec, fn *ssa.Function, args []Value, site string) Value {
-			return Iface{T: types.Universe.Lookup("error").Type(), V: "error@" + site}
-		},
-		"github.com/sirupsen/logrus.Info":  noop,
-		"github.com/sirupsen/logrus.Warnf": noop,
-		"strings.HasPrefix": func(ex *Exec, fn *ssa.Function, args []Value, site string) Value {
+			e = *ea.wraps
+		}
+		return false
+	})
+	for _, n := range []string{"Info", "Infof", "Warn", "Warnf", "Debug", "Debugf", "Error", "Errorf", "Warning", "Warningf", "Print", "Printf", "Println", "Trace", "Tracef"} {
+		reg("github.com/sirupsen/logrus."+n, noop)
+	}
+	for _, n := range []string{"Fatal", "Fatalf", "Fatalln"} {
+		reg("github.com/sirupsen/logrus."+n, func(ex *Exec, fn *ssa.Function, args []Value, site string) Value {
+			panic(exitEvent{site})
+		})
+	}
+	reg("os.Exit", func(ex *Exec, fn *ssa.Function, args []Value, site string) Value { panic(exitEvent{site}) })
+	reg("fmt.Printf", noop)
+	reg("fmt.Println", noop)
+	reg("fmt.Print", noop)
+	strPred := func(name string, conc func(a, b string) bool, sym func(a, b *Term) *Term) {
+		reg(name, func(ex *Exec, fn *ssa.Function, args []Value, site string) Value {
 			a, aok := args[0].(string)
 			b, bok := args[1].(string)
 			if aok && bok {
-				return strings.HasPrefix(a, b)
+				return conc(a, b)
 			}
-			return lower(intern(&Term{Op: "str.prefixof", Args: []*Term{strTerm(args[1]), strTerm(args[0])}, Sort: SBool}))
-		},
-		"strings.ToLower": func(ex *Exec, fn *ssa.Function, args []Value, site string) Value {
-			if a, ok := args[0].(string); ok {
-				return strings.ToLower(a)
-			}
-			panic(pathAbort{"unsupported: symbolic ToLower"})
-		},
-		"fmt.Errorf": func(ex *Exec, fn *ssa.Function, args []Value, site string) Value {
-			return Iface{T: types.Universe.Lookup("error").Type(), V: "error@" + site}
-		},
+			return lower(sym(strTerm(args[0]), strTerm(args[1])))
+		})
 	}
-	for _, e := range []string{"Edge_Type", "HashAlgorithm", "Purpose", "Node_NodeType", "SoftwareIdentifierType", "ExternalReference_ExternalReferenceType"} {
-		e := e
-		intrinsics["(github.com/protobom/protobom/pkg/sbom."+e+").String"] = func(ex *Exec, fn *ssa.Function, args []Value, site string) Value {
-			n, ok := args[0].(int64)
-			if !ok {
-				panic(pathAbort{"unsupported: symbolic enum String()"})
-			}
-			if s, ok := ex.enumTab[e][n]; ok {
-				return s
-			}
-			return fmt.Sprint(n)
+	strPred("strings.HasPrefix", strings.HasPrefix, func(a, b *Term) *Term { return mkPrefixOf(b, a) })
+	strPred("strings.HasSuffix", strings.HasSuffix, func(a, b *Term) *Term { return mkSuffixOf(b, a) })
+	strPred("strings.Contains", strings.Contains, func(a, b *Term) *Term { return mkContains(a, b) })
+	reg("strings.ToLower", func(ex *Exec, fn *ssa.Function, args []Value, site string) Value {
+		if a, ok := args[0].(string); ok {
+			return strings.ToLower(a)
 		}
-	}
+		panic(pathAbort{"unsupported: symbolic ToLower"})
+	})
+	reg("strings.ToUpper", func(ex *Exec, fn *ssa.Function, args []Value, site string) Value {
+		if a, ok := args[0].(string); ok {
+			return strings.ToUpper(a)
+		}
+		panic(pathAbort{"unsupported: symbolic ToUpper"})
+	})
+	reg("strings.TrimPrefix", func(ex *Exec, fn *ssa.Function, args []Value, site string) Value {
+		a, aok := args[0].(string)
+		b, bok := args[1].(string)
+		if aok && bok {
+			return strings.TrimPrefix(a, b)
+		}
+		s, p := strTerm(args[0]), strTerm(args[1])
+		if ex.decideBool(mkPrefixOf(p, s)) {
+			rest := ex.freshVar("trimprefix", SStr, "string", false)
+			ex.assume(mkEq(s, mkConcat(p, rest)))
+			return rest
+		}
+		return args[0]
+	})
+	reg("strings.TrimSuffix", func(ex *Exec, fn *ssa.Function, args []Value, site string) Value {
+		a, aok := args[0].(string)
+		b, bok := args[1].(string)
+		if aok && bok {
+			return strings.TrimSuffix(a, b)
+		}
+		s, p := strTerm(args[0]), strTerm(args[1])
+		if ex.decideBool(mkSuffixOf(p, s)) {
+			rest := ex.freshVar("trimsuffix", SStr, "string", false)
+			ex.assume(mkEq(s, mkConcat(rest, p)))
+			return rest
+		}
+		return args[0]
+	})
+	reg("strings.ReplaceAll", func(ex *Exec, fn *ssa.Function, args []Value, site string) Value {
+		a, aok := args[0].(string)
+		b, bok := args[1].(string)
+		c, cok := args[2].(string)
+		if aok && bok && cok {
+			return strings.ReplaceAll(a, b, c)
+		}
+		return lower(mkStrOp("str.replace_all", SStr, strTerm(args[0]), strTerm(args[1]), strTerm(args[2])))
+	})
+	reg("strings.Repeat", func(ex *Exec, fn *ssa.Function, args []Value, site string) Value {
+		a, aok := args[0].(string)
+		n, nok := args[1].(int64)
+		if aok && nok {
+			if n < 0 {
+				panic(goPanic{"strings: negative Repeat count", site})
+			}
+			return strings.Repeat(a, int(n))
+		}
+		panic(pathAbort{"unsupported: symbolic Repeat"})
+	})
 }
 
-func sanitize(s string) string {
-	return strings.Map(func(r rune) rune {
-		if (r >= 'a' && r <= 'z') || (r >= 'A' && r <= 'Z') || (r >= '0' && r <= '9') || r == '_' {
-			return r
-		}
-		return '_'
-	}, s)
+func noop(ex *Exec, fn *ssa.Function, args []Value, site string) Value { return nil }
+
+func (ex *Exec) observe(s string) {
+	ex.mon.obs = append(ex.mon.obs, s)
 }
 
 // insertion sort with solver-decided comparisons; writes only when out of order
@@ -206,51 +493,30 @@ func sortStrings(ex *Exec, fn *ssa.Function, args []Value, site string) Value {
 			if !ex.decideBool(lt) {
 				break
 			}
+			if s.O != nil && s.O.Frozen {
+				ex.mon.frozenWrite(ex, s.O, site+" (sort swaps elements)")
+			}
 			s.Arr[s.Off+j], s.Arr[s.Off+j-1] = b, a
 		}
 	}
 	return nil
 }
 
-func (ex *Exec) assertTerm(t *Term, site string) {
-	ex.siteReach[site]++
-	t = ex.simp(t)
-	if t == tTrue {
-		return
+func sortInts(ex *Exec, fn *ssa.Function, args []Value, site string) Value {
+	s := args[0].(Slice)
+	for i := 1; i < s.Len; i++ {
+		for j := i; j > 0; j-- {
+			a, b := s.Arr[s.Off+j], s.Arr[s.Off+j-1]
+			if !ex.decideBool(mkIntCmp("<", intTerm(a), intTerm(b))) {
+				break
+			}
+			if s.O != nil && s.O.Frozen {
+				ex.mon.frozenWrite(ex, s.O, site+" (sort swaps elements)")
+			}
+			s.Arr[s.Off+j], s.Arr[s.Off+j-1] = b, a
+		}
 	}
-	ex.sync()
-	r := "sat"
-	neg := mkNot(t)
-	if neg != tTrue {
-		r = ex.solver.Check(neg)
-	} else {
-		r = ex.solver.Check(nil)
-	}
-	switch r {
-	case "unsat":
-		ex.solver.Pop()
-		ex.Discharged++
-	case "sat":
-		m := ex.solver.Model(ex.varNames)
-		ex.solver.Pop()
-		ex.Violations = append(ex.Violations, Violation{Site: site, Kind: "assert", Model: m, Trace: append([]int{}, ex.trace...)})
-	default:
-		ex.solver.Pop()
-		ex.Violations = append(ex.Violations, Violation{Site: site, Kind: "unknown"})
-	}
-	// continue under the assumption that the assertion holds
-	if ex.feasible(t) {
-		ex.assume(t)
-	} else {
-		panic(pathAbort{"assert always false here"})
-	}
+	return nil
 }
 
-type ctxAbs struct {
-	parent   *ctxAbs
-	key, val Value
-}
-
-var ctxType types.Type = types.NewNamed(types.NewTypeName(0, nil, "abstractContext", nil), types.NewStruct(nil, nil), nil)
-
-func noop(ex *Exec, fn *ssa.Function, args []Value, site string) Value { return nil }
+var _ = types.Universe
